@@ -126,6 +126,16 @@ class Harness:
             # the thread-local cache owns its statistics: replace the fresh counters by symbolic ones
             names = struct_fields(P, 'ThreadLocalCache'); cache.fields[names.index('stats')] = s.stats
         s.cache = cache; s.cache_ref = Ref(Cell(cache, 'cache'))
+        # time may pass between building the handle and using it: the operation starts at a later (symbolic) instant
+        clock = ctx.sys_vars if fl == 'A' else ctx.now_vars
+        s.t_constructed = clock[-1]; s.now_pre = s.now0
+        if fl == 'A':
+            s.now0 = RI(name + '_opstart_s'); ctx.add(z3.And(s.now0 >= s.t_constructed, s.now0 <= 2 ** 36)); clock.append(s.now0)
+            tpre = s.tnow0
+            s.tnow0 = z3.Real(name + '_topstart'); nr = s.now0 if cfg.real else z3.ToReal(s.now0)
+            ctx.add(z3.And(s.tnow0 >= tpre, s.tnow0 >= nr, s.tnow0 < nr + 1))
+        else:
+            s.now0 = RI(name + '_opstart'); ctx.add(z3.And(s.now0 >= s.t_constructed, s.now0 <= 2 ** 68)); clock.append(s.now0)
 
     # ---------- running operations
     def method(s, name): return find_method(s.P, s.ty, name)
